@@ -1743,6 +1743,8 @@ def r01_13(ctx):
             return BoxT(self.meets)
 
         def intersection(self, other, equal_beziers=True, end_points=True):
+            if not self.meets:
+                return ()                                   # curves whose boxes are apart do not cross
             return tuple(inters) if self.first else tuple((b, a, v, u) for a, b, u, v in inters)
 
         def __and__(self, other):
@@ -1758,9 +1760,9 @@ def r01_13(ctx):
             out.undecided(fn.qname, f"{label}: {ex}", where=fn.where())
             continue
         if not meets:
-            ok = not A.splits and not B.splits
-            (out.ok if ok else out.bad)(fn.qname, "boxes apart: nothing is split" if ok else
-                                        "curves whose boxes are apart are split all the same", where=fn.where())
+            ok = not any(ix for ix, nd in A.splits + B.splits)
+            (out.ok if ok else out.bad)(fn.qname, "boxes apart (no crossings): nothing is split" if ok else
+                                        "curves that do not cross are split all the same", where=fn.where())
             continue
         for cv, want in ((A, sorted({(a, u) for a, _, u, _ in inters})), (B, sorted({(b, v) for _, b, _, v in inters}))):
             got = sorted({p for ix, nd in cv.splits for p in zip(ix, nd) if 0 < p[1] < 1})
